@@ -153,6 +153,11 @@ class Core : public ResultCoreT<Type, Ret, E>, public FuncCore<Func> {
       return Done<SymmetricTransfer, true>(core.template MoveOrConst<!AsyncShared>());
     };
     if constexpr (IsRun(Type)) {
+      if (this->_self.caller == nullptr) {
+        // Started as the head of a lazy Task returned from another step
+        this->_executor->Submit(*this);
+        return Noop<SymmetricTransfer>();
+      }
       return async_done();
     } else {
       if constexpr (kAsync != AsyncType::None) {
